@@ -573,3 +573,93 @@ def streamsm_random(r, idx):
                 steps.append(sm_op(("c" if side == 1 else "s") + "q" + str(sid), r))
     steps.append({"do": "run", "us": 300000})
     return {"cfg": cfg, "steps": steps, "tag": {"family": "streamsm-random", "idx": idx}}
+
+
+# ------------------------------------------------------------------------------------------------
+# C02
+
+def progress_script(r, idx, fate_vec=None, drops_only=None):
+    cfg = base_cfg(r)
+    for side in ("server", "client"):
+        t = {}
+        t["idle_ms"] = 0          # the budget, not the idle timeout, bounds the run
+        if r.random() < 0.7:
+            t["cc"] = r.choice(["newreno", "cubic", "bbr", "fixed:3000", "fixed:12000", "flip:3000:30000"])
+        if r.random() < 0.4:
+            t["recv_window"] = r.choice([1200, 10000])
+        if r.random() < 0.4:
+            t["stream_recv_window"] = r.choice([1200, 10000])
+        if r.random() < 0.3:
+            t["send_window"] = r.choice([1200, 10000])
+        if r.random() < 0.3:
+            t["max_bidi"] = r.choice([0, 1, 100])
+            t["max_uni"] = r.choice([0, 1, 100])
+        if r.random() < 0.25:
+            t["pad_to_mtu"] = True
+        if r.random() < 0.25:
+            t["max_bytes_per_sec"] = r.choice([50000, 1000000])
+        if r.random() < 0.3:
+            t["ack_freq"] = True
+            t["ack_freq_threshold"] = r.choice([1, 5, 20])
+        if r.random() < 0.3:
+            t["mtud"] = False
+        if r.random() < 0.2:
+            t["packet_threshold"] = r.choice([3, 10])
+        if r.random() < 0.25:
+            t["keep_alive_ms"] = r.choice([300, 2000])
+        if r.random() < 0.2:
+            t["gso"] = False
+        cfg[side] = t
+    cfg["sf_size"] = r.choice([0, 0, 3000, 9000])
+    if fate_vec is not None:
+        half = len(fate_vec) // 2
+        pre = r.choice([0, 0, 1, 3, 6, 12])   # where in the exchange the faulty prefix sits
+        cfg["fates_c2s"] = ["ok"] * pre + [FATE_MAP[f] for f in fate_vec[:half]]
+        cfg["fates_s2c"] = ["ok"] * pre + [FATE_MAP[f] for f in fate_vec[half:]]
+    elif drops_only is not None:
+        cfg["fates_c2s"] = ["x" if b else "ok" for b in drops_only[0]]
+        cfg["fates_s2c"] = ["x" if b else "ok" for b in drops_only[1]]
+    cfg["late_us"] = r.choice([0, 0, 1000, 50000, 1000000])
+    cfg["spurious"] = r.random() < 0.3
+    cfg["max_datagrams"] = r.choice([1, 3, 10])
+    steps = [{"do": "connect", "n": 1}]
+    tiny = any(cfg[x].get(k, 10 ** 9) < 5000 for x in ("server", "client") for k in ("recv_window", "stream_recv_window", "send_window")) \
+        or any(cfg[x].get("max_bytes_per_sec", 10 ** 9) < 100000 for x in ("server", "client")) \
+        or any(cfg[x].get("cc", "") == "fixed:3000" for x in ("server", "client"))
+
+    def wl(n):
+        streams = []
+        for _ in range(r.choice([1, 2, 3])):
+            size = r.choice([1, 100, 1200, 3000] if tiny else [1, 1200, 5000, 20000, 70000])
+            streams.append({"dir": r.choice([0, 0, 1]), "size": size, "chunk": r.choice([1000, 5000, 1 << 20]), "finish": True})
+        return {"do": "app", "n": n, "c": 0, "streams": streams, "read_max": 1 << 20, "ordered": True,
+                "maxsize": max(s["size"] for s in streams)}
+
+    steps.append(wl(1))
+    aux = []
+    if r.random() < 0.5:
+        steps.append({"do": "run_until", "what": "connected", "max_us": 200000000})
+        steps.append(wl(0))
+    for _ in range(r.choice([0, 0, 1, 2, 3])):
+        steps.append({"do": "run", "us": r.choice([1000, 20000, 100000, 700000])})
+        side = r.choice([0, 1])
+        k = r.random()
+        if k < 0.3:
+            steps.append({"do": "op", "n": side, "c": 0, "op": {"op": "key_update"}})
+        elif k < 0.5:
+            steps.append({"do": "op", "n": side, "c": 0, "op": {"op": "ping"}})
+        elif k < 0.65:
+            steps.append({"do": "op", "n": side, "c": 0, "op": {"op": "set_send_window", "v": r.choice([1200, 100000])}})
+        elif k < 0.8:
+            steps.append({"do": "op", "n": side, "c": 0, "op": {"op": "set_receive_window", "v": r.choice([1200, 100000])}})
+        else:
+            steps.append({"do": "op", "n": side, "c": 0, "op": {"op": "set_max_streams", "dir": r.choice([0, 1]), "v": r.choice([1, 5, 100])}})
+    # streams limited to zero are raised later so that the workload can complete
+    steps.append({"do": "run_until", "what": "connected", "max_us": 200000000})
+    steps.append({"do": "run", "us": 300000})
+    for side in (0, 1):
+        for d in (0, 1):
+            steps.append({"do": "op", "n": side, "c": 0, "op": {"op": "set_max_streams", "dir": d, "v": 100}})
+    budget = 400
+    steps.append({"do": "run_until", "what": "apps", "max_us": budget * 1000000})
+    return {"cfg": cfg, "steps": steps, "tag": {"family": "progress", "idx": idx, "budget_s": budget}}
